@@ -41,6 +41,8 @@ import (
 //	op [13, sid, dlen, plen, end]   DATA with the PADDED flag: pad-length byte, dlen zero bytes, plen padding
 //	op [14, id, val]     SETTINGS with the single setting (id, val)
 //	op [15]              SETTINGS ack
+//	(op [30] http2Client.GracefulClose is used by the C14 driver; after it a NewStream that is still
+//	 waiting at the quiescent point is cancelled and reported as [0, -2, 0, 0])
 //	obs: events of the op, 4 integers each, in this order:
 //	    [0, sid|-1, 0, 0]           result of NewStream
 //	    [1, sid, code, unprocessed] stream sid terminated with this status code (by sid)
@@ -150,6 +152,7 @@ func vClientFramesRun(cfg []int64, ops [][]int64) (obs [][]int64, nt bool, tags 
 	rstSeen := 0
 	tagset := map[string]bool{}
 	finalClose := false
+	graceful := false // C14: GracefulClose has been called
 	collect := func(first []int64) []int64 {
 		ev := append([]int64{}, first...)
 		for _, st := range streams {
@@ -208,8 +211,34 @@ func vClientFramesRun(cfg []int64, ops [][]int64) (obs [][]int64, nt bool, tags 
 				sctx, c = context.WithTimeout(ctx, time.Duration(op[1])*time.Millisecond)
 				defer c()
 			}
-			s, err := t.NewStream(sctx, &CallHdr{Host: "h", Method: "/s/m"}, nil)
-			if err != nil {
+			var s *ClientStream
+			var err error
+			blocked := false
+			if !graceful {
+				s, err = t.NewStream(sctx, &CallHdr{Host: "h", Method: "/s/m"}, nil)
+			} else {
+				// C14 only, after GracefulClose: NewStream on a transport that drains locally (no GOAWAY
+				// received) neither succeeds nor fails, it waits for a GOAWAY, the end of the transport or
+				// its context; run it aside, and if it is still waiting at the quiescent point cancel it
+				nctx, ncancel := context.WithCancel(sctx)
+				defer ncancel()
+				nd := make(chan struct{})
+				go func() {
+					defer close(nd)
+					s, err = t.NewStream(nctx, &CallHdr{Host: "h", Method: "/s/m"}, nil)
+				}()
+				synctest.Wait()
+				select {
+				case <-nd:
+				default:
+					blocked = true
+					ncancel()
+					<-nd
+				}
+			}
+			if blocked {
+				first = []int64{0, -2, 0, 0}
+			} else if err != nil {
 				first = []int64{0, -1, 0, 0}
 			} else {
 				streams = append(streams, &vClientFramesStream{s: s})
@@ -300,6 +329,9 @@ func vClientFramesRun(cfg []int64, ops [][]int64) (obs [][]int64, nt bool, tags 
 			}
 		case 15:
 			sfr.WriteSettingsAck()
+		case 30: // used by the C14 driver only: local graceful close (address update, subchannel shutdown)
+			graceful = true
+			t.GracefulClose()
 		}
 		flush()
 		synctest.Wait()
